@@ -6,7 +6,7 @@
 //! model. They are used by the solver-based checks in `/verif`.
 
 #[cfg(not(feature = "std"))]
-use alloc::boxed::Box;
+use alloc::{boxed::Box, vec::Vec};
 use core::convert::TryFrom;
 
 use crate::{
@@ -209,4 +209,33 @@ pub fn snapshot(hs: &HandshakeState) -> Snapshot {
 #[must_use]
 pub fn split_nonces(hs: &HandshakeState) -> (u64, u64) {
     (hs.cipherstates.0.nonce(), hs.cipherstates.1.nonce())
+}
+
+/// The message token table of a handshake choice, encoded as bytes (e = 0, s = 1, ee = 2, es = 3, se = 4,
+/// ss = 5, psk(n) = 16 + n) together with the two pre-message token lists; `None` if the choice is invalid.
+#[must_use]
+#[allow(clippy::type_complexity)]
+pub fn token_table(
+    handshake: &crate::params::HandshakeChoice,
+) -> Option<(Vec<u8>, Vec<u8>, Vec<Vec<u8>>)> {
+    use crate::params::{DhToken, Token};
+    fn code(t: Token) -> u8 {
+        match t {
+            Token::E => 0,
+            Token::S => 1,
+            Token::Dh(DhToken::Ee) => 2,
+            Token::Dh(DhToken::Es) => 3,
+            Token::Dh(DhToken::Se) => 4,
+            Token::Dh(DhToken::Ss) => 5,
+            Token::Psk(n) => 16 + n,
+            #[cfg(feature = "hfs")]
+            _ => 255,
+        }
+    }
+    let t = HandshakeTokens::try_from(handshake).ok()?;
+    Some((
+        t.premsg_pattern_i.iter().map(|x| code(*x)).collect(),
+        t.premsg_pattern_r.iter().map(|x| code(*x)).collect(),
+        t.msg_patterns.iter().map(|m| m.iter().map(|x| code(*x)).collect()).collect(),
+    ))
 }
